@@ -276,7 +276,7 @@ MUTANTS = [
     (CM.SYSINFO, "ma[len - 1 - (i >> 3)]", "ma[i >> 3]", "gsm48_decode_mobile_alloc_loop3"),
     (CM.SYSINFO, "if (i >= j) {", "if (i > j) {", "gsm48_decode_mobile_alloc_"),
     (CM.SYSINFO, "if (len > 8)\n\t\treturn -EINVAL;", "if (len > 9)\n\t\treturn -EINVAL;", "gsm48_decode_mobile_alloc_"),
-    (CM.SYSINFO, "for (i = 1; i <= 1024; i++) {", "for (i = 1; i < 1024; i++) {", "gsm48_decode_mobile_alloc_"),
+    (CM.SYSINFO, "for (i = 1; i <= 1024 && j < (len << 3); i++) {", "for (i = 1; i < 1024 && j < (len << 3); i++) {", "gsm48_decode_mobile_alloc_"),
     (CM.SYSINFO, "freq[i].mask &= ~FREQ_TYPE_HOPP;", "freq[i].mask &= ~FREQ_TYPE_SERV;", "gsm48_decode_mobile_alloc_loop1"),
 ]
 
